@@ -101,6 +101,7 @@ ObsOutBudget(o, ev, seq) ==
        IF o.tokens = 0 THEN [o EXCEPT !.bad = @ \cup {Tag({"C20"}, "rated datagram written with no budget left", seq)}]
        ELSE IF ev.failed THEN o                      \* the token of a failed write is given back
        ELSE [o EXCEPT !.tokens = @ - 1, !.count = @ + 1]
+  ELSE IF ev.failed THEN o                           \* the token of a failed write is given back
   ELSE \* rate form, prefix windows: count <= burst + rate * elapsed
        LET c == o.count + 1 IN
        IF c > o.cfg.burst + (o.cfg.rate * ev.ms) \div 1000 + 1
